@@ -21,7 +21,9 @@ LEVEL = {'text': 'Machine-checked: REL/RELA (incl. MIPS64 packed r_info) table r
                  'shifting-loop = gABI bitmap reading for every word list, the RELR memo (_cached_relocations) is None or the '
                  'full expansion after every finite history of calls (walks started / resumed / abandoned, num_relocations, '
                  'get_relocation, complete walks) and every answer of a RELR or REL/RELA table object after any such history '
-                 'equals the stateless expansion, every regenerated recipe of the listed '
+                 'equals the stateless expansion, the n-th get_dwarf_info call on one ELFFile depends only on its own flag '
+                 '(relocations are applied to the raw section bytes each time, the image is never written), every '
+                 'regenerated recipe of the listed '
                  'machines equals the psABI formula modulo the field width for all integers, the apply loop writes '
                  'exactly the wrapped value in file byte order and changes no other byte, error classes exact, no '
                  'relocation when disabled. Recipes, calc functions (symbolic evaluation), machine dispatch and record '
@@ -34,7 +36,10 @@ RULE = ('cases: REL/RELA tables (both classes, byte orders, MIPS64, 0..many entr
         'through section, raw table and dynamic tags; RELR word streams of every bit-pattern class; histories of calls on ONE '
         'table object (RelrRelocationSection / RelrRelocationTable / RelocationSection / RelocationTable): walks started, '
         'resumed by next() or a for loop left by break, abandoned by close() or by dropping the generator, interleaved with '
-        'num_relocations / get_relocation(n) / complete walks, every answer compared; relocation application '
+        'num_relocations / get_relocation(n) / complete walks, every answer compared; sequences of get_dwarf_info(relocate '
+        'in {True, False}) / RelocationHandler calls on ONE ELFFile object (TT, TF, FT, FFT, random; REL flavours twice as '
+        'often), every call against the stateless reference, earlier streams re-read at the end, file image unchanged; '
+        'relocation application '
         'on synthesized relocatable images for every (machine, flavour, type) with random S/A/V, overlapping and boundary '
         'offsets, error classes, relocation on/off, via get_dwarf_info and via RelocationHandler. distinct = hash(kind, '
         'abstract); non-trivial = at least one entry/word/relocation or an error case')
@@ -461,6 +466,26 @@ def gen_hist(ctx, cases):
                         cases.append(('rel_hist', [le, is64, em, rela, ents, gap, via, slack, gen_history(rng, n)]))
 
 
+def gen_apply_seq(ctx, cases):
+    """get_dwarf_info() called several times on ONE ELFFile object: calls = [[relocate flag, via], ...]; via =
+    'dwarfinfo' (get_dwarf_info) or 'handler' (RelocationHandler on a copy of section.data()).  REL flavours (the
+    in-place addend makes a second application visible) are drawn twice as often."""
+    rng = ctx.rng
+    reps = ctx.scale(10, 100)
+    fixed = [[True, True], [True, False], [False, True], [False, False, True], [True, True, True], [True, False, True]]
+    for em in [3, 3, 40, 40, 8, 8, 62, 183, 21, 22, 258]:
+        for i in range(reps):
+            le, is64, rela, data, symvals, ents = gen_apply_case(rng, em)
+            if i % 2 == 0 and not ents:      # at least one relocation in every other case
+                le, is64, rela, data, symvals, ents = gen_apply_case(rng, em, 'oob' if i % 10 == 8 else 'sym0' if i % 10 == 6 else None)
+            flags = fixed[i] if i < len(fixed) else [rng.random() < 0.6 for _ in range(rng.choice([2, 2, 3, 4]))]
+            calls = [[f, 'dwarfinfo' if rng.random() < 0.8 else 'handler'] for f in flags]
+            name = ('.rela' if rela else '.rel') + '.debug_info'
+            rsecs = [[name, 4 if rela else 9, rela, ents, 1]] if rng.random() < 0.93 else []
+            gap = bytes(rng.randrange(1, 256) for _ in range(rng.choice([0, 1, 3, 8])))
+            cases.append(('apply_seq', [em, le, is64, calls, data, symvals, rsecs, gap]))
+
+
 def gen(ctx):
     cases = []
     gen_tables(ctx, cases)
@@ -468,6 +493,7 @@ def gen(ctx):
     gen_apply(ctx, cases)
     gen_dyn(ctx, cases)
     gen_hist(ctx, cases)
+    gen_apply_seq(ctx, cases)
     return cases
 
 
@@ -521,8 +547,11 @@ def evaluate(ctx, cases):
             w.h_wf = b1.add(['rents_wf', is64, mips64, rela, ents])
             w.h_spec = b1.add(['spec_hist_rel', is64, mips64, rela, ents, hist])
             w.h_hok = b1.add(['hist_ok', True, len(ents), hist])
-        elif kind == 'apply':
-            em, le, is64, relocate, via, data, symvals, rsecs, gap = a
+        elif kind in ('apply', 'apply_seq'):
+            if kind == 'apply':
+                em, le, is64, relocate, via, data, symvals, rsecs, gap = a
+            else:
+                em, le, is64, calls, data, symvals, rsecs, gap = a
             mips64 = is64 and em == EM['MIPS']
             w.h_rs = [b1.add(['enc_table', le, is64, mips64, r[2], r[3]]) for r in rsecs]
             w.h_rwf = [b1.add(['rents_wf', is64, mips64, r[2], r[3]]) for r in rsecs]
@@ -594,8 +623,12 @@ def evaluate(ctx, cases):
             else:
                 w.img, w.off = data + b'\x77' * 3, 0
             w.h_model = b2.add(['model_relr', le, is64, w.img, w.off, len(data), entsize])
-        elif kind == 'apply':
-            em, le, is64, relocate, via, data, symvals, rsecs, gap = a
+        elif kind in ('apply', 'apply_seq'):
+            if kind == 'apply':
+                em, le, is64, relocate, via, data, symvals, rsecs, gap = a
+            else:
+                em, le, is64, calls, data, symvals, rsecs, gap = a
+                relocate = True
             symdata = b''.join(b1[h] for h in w.h_syms)
             nr = len(rsecs)
             symidx = 4 + nr
@@ -612,7 +645,10 @@ def evaluate(ctx, cases):
             descs = [_sec_desc(s['name'], s['type'], w.offs[i], len(s['data']), s.get('link', 0), s.get('entsize', 0))
                      for i, s in enumerate(full)]
             descs.append(_sec_desc('.shstrtab', 3, w.offs[-1], 0, 0, 0))
-            w.h_model = b2.add(['model_read_dwarf', le, is64, em, w.img, descs, 1, relocate])
+            if kind == 'apply':
+                w.h_model = b2.add(['model_read_dwarf', le, is64, em, w.img, descs, 1, relocate])
+            else:
+                w.h_model = b2.add(['model_dwarf_seq', le, is64, em, w.img, descs, 1, [c[0] for c in calls]])
             # the relocation section the gABI designates: type REL/RELA with sh_info = index of .debug_info
             target = [r for r in rsecs if r[1] in (4, 9) and r[4] == 1]
             w.conventional = (len(target) <= 1 and
@@ -648,6 +684,8 @@ def evaluate(ctx, cases):
             _eval_rel_hist(ctx, w, b1, b2)
         elif kind == 'apply':
             _eval_apply(ctx, w, b1, b2)
+        elif kind == 'apply_seq':
+            _eval_apply_seq(ctx, w, b1, b2)
         elif kind == 'dyn':
             _eval_dyn(ctx, w, b1, b2, drv)
 
@@ -849,6 +887,52 @@ def _eval_apply(ctx, w, b1, b2):
     ctx.bump('relocate', int(relocate))
     ctx.record('apply', w.a, impl=impl, spec=spec, model=model, in_domain=in_domain,
                nontrivial=len(ents) > 0 or is_err(spec), key=key)
+
+
+def _eval_apply_seq(ctx, w, b1, b2):
+    """answer = [result of each call, the same streams read again after the last call, file image unchanged]"""
+    from elftools.elf.relocation import RelocationHandler
+    em, le, is64, calls, data, symvals, rsecs, gap = w.a
+    def run():
+        elf = _open(w.img)
+        held = []
+        first = []
+        for flag, via in calls:
+            try:
+                if via == 'dwarfinfo':
+                    di = elf.get_dwarf_info(relocate_dwarf_sections=flag)
+                    stream = di.debug_info_sec.stream
+                else:
+                    section = elf.get_section_by_name('.debug_info')
+                    stream = io.BytesIO()
+                    stream.write(section.data())
+                    if flag:
+                        h = RelocationHandler(elf)
+                        rs = h.find_relocations_for_section(section)
+                        if rs is not None:
+                            h.apply_section_relocations(stream, rs)
+                held.append(stream)
+                first.append(ok(stream.getvalue()))
+            except Exception as e:      # noqa: every exception class is an observation
+                held.append(None)
+                first.append(['err', type(e).__name__])
+        again = [ok(st.getvalue()) if st is not None else r for st, r in zip(held, first)]
+        return ok([first, again, int(elf.stream.getvalue() == w.img)])
+    impl = impl_call(run)
+    m = b2[w.h_model]
+    model = ok([m[0], m[0], m[1]])
+    if w.h_spec is not None:
+        sp, wf = b2[w.h_spec], b2[w.h_wf] == 1
+    else:
+        sp, wf = ok(data), True
+    per_call = [sp if flag else ok(data) for flag, via in calls]
+    spec = ok([per_call, per_call, 1])
+    ents = w.target[3] if w.target else []
+    flags = [c[0] for c in calls]
+    ctx.bump('seq_flags', ''.join('T' if f else 'F' for f in flags))
+    ctx.bump('seq_flavour', ('rela' if w.target[2] else 'rel') if w.target else 'none')
+    ctx.record('apply_seq', w.a, impl=impl, spec=spec, model=model, in_domain=bool(w.conventional and wf),
+               nontrivial=len(ents) > 0 or is_err(sp), key='dwarf-call-sequence')
 
 
 # ----------------------------------------------------------------------------- dynamic tables
